@@ -34,6 +34,8 @@ type Case struct {
 	Separate bool
 	// UseOverride: default_package_name is an alias resolved by import_path_overrides.
 	UseOverride bool
+	// DottedPath: the struct package lives at a gopkg.in-style import path ("…/name.v1").
+	DottedPath bool
 	// RawParam, when set, replaces the computed parameter string (C16 error cases).
 	RawParam *string
 	// NoWrite: do not place the case in the Go workspace (L1-only cases).
@@ -77,6 +79,9 @@ func (w *Workspace) Prepare(c *Case) {
 	base := "vw/cases/" + c.Name
 	if c.Separate {
 		c.StructImport = base + "/" + c.StructPkg
+		if c.DottedPath {
+			c.StructImport += ".v1"
+		}
 		tp := c.Cfg.TargetPackageName
 		if tp == "" {
 			tp = "tfschema"
